@@ -31,6 +31,18 @@ __attribute__((noinline)) int xk_fold_un(int op, unsigned a, int *isconst) {
   *isconst = e.isConst();
   return e.isConst() ? e.getValue() : 0;
 }
+// string packing: CodeBuffer::genString on a literal of n arbitrary characters; returns the DATA words it generates
+__attribute__((noinline)) int xk_string(int n, const unsigned char *chars, unsigned *words) {
+  SymbolTable st;
+  CodeBuffer cb(st);
+  std::string v(reinterpret_cast<const char*>(chars), n);
+  cb.genString(Reg::A, v);
+  int k = 0;
+  for (auto &d : cb.getData()) {
+    if (d->getToken() == hexasm::Token::DATA) words[k++] = d->getValue();
+  }
+  return k;
+}
 // val propagation: 'val v = <init>' then a use of v. constant != 0: initialiser is the number `value`;
 // otherwise the initialiser is a reference to a global variable (not a constant).
 __attribute__((noinline)) int xk_valprop(int constant, unsigned value, int *isconst) {
@@ -39,12 +51,12 @@ __attribute__((noinline)) int xk_valprop(int constant, unsigned value, int *isco
   SymbolTable st;
   ConstProp cp(st);
   cp.enterProgram();
-  if (constant) { auto n = std::make_unique<NumberExpr>(loc, value); cp.visitPost(*n); init = std::move(n); }
+  if (constant) { auto n = std::make_unique<NumberExpr>(loc, value); cp.visitPost(*n); init = std::move(n); }   // 1 or 2
   else init = std::make_unique<VarRefExpr>(loc, "g");
   ValDecl decl(loc, "v", std::move(init));
   st.insert(std::make_pair(std::string(""), std::string("v")),
             std::make_unique<Symbol>(SymbolType::VAL, &decl, "", "v"));
-  cp.visitPost(decl);
+  if (constant != 2) cp.visitPost(decl);     // constant == 2: the use is visited before the declaration (forward reference)
   VarRefExpr use(loc, "v");
   cp.visitPost(use);
   *isconst = use.isConst();
